@@ -366,10 +366,14 @@ func (s *impl) Acknowledge(p *mqttp.ConnAck, opts ...Option) error {
 		s.onConnClose = s.onConnectionCloseStage2
 		s.callStop = s.onConnectionClose
 
+		// the subscriber goes online first: what is routed to this session from now on waits in
+		// writer.send until the writer has loaded the persisted backlog and is queued behind it.
+		// Going online after the load left a window in which a message was persisted behind the
+		// load's back and stayed there until the next reconnect, and, as the reader was already
+		// running, a new subscription could be acknowledged while its messages were still diverted
+		s.SignalOnline()
 		s.tx.start(true)
 		s.rx.run()
-
-		s.SignalOnline()
 	}
 
 	return ack
